@@ -140,6 +140,16 @@ def erase(toks):
         if t in SPEC_KW:
             i = _skip_to_body(toks, i)
             continue
+        if t == "else" and nxt == "{":
+            # a ghost-only `else { proof {..} }` branch added for the proof disappears completely
+            e = match_close(toks, i + 1)
+            inner = erase(toks[i + 2:e])
+            if not inner and e > i + 2:
+                i = e + 1
+                continue
+            out.extend(["else", "{"] + inner + ["}"])
+            i = e + 1
+            continue
         if t == "proof" and nxt == "{":
             i = match_close(toks, i + 1) + 1
             continue
